@@ -4,7 +4,7 @@
 translate:  tools/translate/severity.py -> Par/Gen_Severity.v (the PipeSignal frame types and the
             type check of handleRead, re-read from cli/processexecutor.cpp on every run)
 prove:      coq/theories/Properties_C21.v (termination under every schedule, progress, containment
-            of every set of workers dying between records, mid-record death refuted)
+            of every set of workers dying at any point: between records or inside a record)
 correspond: the extracted state machine (Proc/Run.v, fair schedule) vs the real binary with the
             guarded fault hook VERIF_CHILD_FAULT=<file>:<k>:<sig|exit|midmsg> of
             cli/processexecutor.cpp: generated projects, every file x every crash point x three
@@ -26,7 +26,6 @@ import vlib
 from translate import severity as T
 
 PID = "C21"
-K_MID = "worker-dies-inside-pipe-message"
 EXITCODE = 7
 TEMPLATE = "--template={file}|{line}|{id}|{message}"
 SNIPPETS = [
@@ -97,7 +96,7 @@ def check(run, replay):
     quick = run.tier == "quick"
     rng = run.rng
     run.trusted_base += [
-        "Coq 8.16.1 kernel (coqc); vm_compute only in the refuted witness and the Examples",
+        "Coq 8.16.1 kernel (coqc); vm_compute only in the Examples",
         "extraction: Require Extraction + ExtrOcamlBasic only; ocaml/driver.ml",
         "tools/translate/severity.py (PipeSignal enum and the type check of handleRead)",
         "hook commit 49cbcca in /repo (guarded): VERIF_CHILD_FAULT makes the worker of a chosen file raise SIGSEGV / _exit(3) / write 3 bytes of the next record and _exit(3) when it is about to send its (k+1)-th finding or its CHILD_END record",
@@ -184,17 +183,10 @@ def check(run, replay):
                                     fault, jobs, rc, len(real_ev), exp_rc, len(m_ev))
                                 run.violation(key, what + ("" if contained else "; containment violated on the real run"), rep, found_input=not contained)
                         else:
-                            # model: the parent exits inside handleRead (mid-record death)
-                            if rc == int(m_halt) and not contained:
-                                run.violation(K_MID, "a worker dying inside a pipe record makes the parent exit(%s): findings of other files are lost, "
-                                              "no internal error names the file, exit status is not --error-exitcode" % m_halt, rep)
-                            elif contained:
-                                st["disagreements"] += 1
-                                run.violation("midmsg-model:" + sha(fault + repr(files)), "model predicts exit(%s) for %s but the real run contained the fault" % (m_halt, fault),
-                                              rep, found_input=False)
-                            else:
-                                st["disagreements"] += 1
-                                run.violation("midmsg:" + sha(fault + repr(files)), "mid-record death: real exit %s, model exit %s" % (rc, m_halt), rep)
+                            # the machine took an exit() branch or did not finish: never expected for worker faults
+                            st["disagreements"] += 1
+                            run.violation("model-exit:" + sha(fault + repr(files)), "the model predicts exit(%s) for fault %s; real exit %s, contained=%s"
+                                          % (m_halt, fault, rc, contained), rep, found_input=not contained)
         if not st["nontrivial"]:
             run.violation("hook-missing", "no injected fault changed any run: the VERIF_CHILD_FAULT hook is not in the binary",
                           {"broken": "hook"}, found_input=False)
